@@ -152,9 +152,9 @@ CLAIMS = {
              "exception, with the data the reference executor determines, and no response key merges different fields.",
         note=BND + "Exception-escape analysis over the visitor-based validator is outside the VC generator's subset."),
     "C06": dict(
-        category="other", engine="rtc",
-        technique="run-time verdict equality with a reference implementation of the 26 validation rules + metamorphic invariance; is_subtype proved (C13)",
-        text="Bounded: validate_ast's verdict equals that of a comprehension-style reference implementation of section 5 of the specification on "
+        category="other", engine="pyvc+rtc",
+        technique="contract-based deductive verification of _types_conflict (pyvc/z3, induction through own contract) + run-time verdict equality with a reference implementation of the 26 validation rules + metamorphic invariance; is_subtype proved (C13)",
+        text="Proved for all type expressions: _types_conflict == the specification's SameResponseShape on types (exactly one non-null / exactly one list / differing leaves). Bounded: validate_ast's verdict equals that of a comprehension-style reference implementation of section 5 of the specification on "
              "labelled single-rule violations, generated operations and their mutations; each labelled violation is reported; the verdict is "
              "unchanged by permuting definitions, reversing selections / arguments / variable definitions, consistent renaming and re-spacing.",
         note=BND + "Trusted: vf/ref_validate.py (276 self-test cases incl. the specification's own examples)."),
